@@ -101,6 +101,10 @@ def _assigned_fields(fn):
             f = field_of(fn, n['recv'])
             if f:
                 out.append((n['id'], f, n))
+        elif k == 'call' and n.get('q') == 'std::exchange' and len(n.get('args', [])) == 2:
+            f = field_of(fn, n['args'][0])     # std::exchange(x, v) stores v into x
+            if f:
+                out.append((n['id'], f, n))
         elif k == 'call' and n.get('q', '').endswith('::reset') and n.get('recv') is not None:
             f = field_of(fn, n['recv'])
             if f:
